@@ -43,7 +43,8 @@ MIRROR = {"<": ">", ">": "<", "≤": "≥", "≥": "≤", "=": "=", "≠": "≠"
 
 
 def small_program(rng):
-    f = rng.choice([C01.s_op_single, C01.s_dag_distinct, C01.s_sel, C01.s_logic_chain, C02.s_arith, C02.s_filter, C02.s_gate,
+    f = rng.choice([C01.s_op_single, C01.s_dag_distinct, C01.s_sel, C01.s_logic_chain, C01.s_literal_left, C01.s_sel_same_typed,
+                    C01.s_two_producers, C02.s_arith, C02.s_filter, C02.s_gate, C02.s_anyall,
                     C06.s_inline, C06.s_noninline, C06.s_chest, "mem", "latch"])
     if f == "mem":
         return C03.build(rng, "basic")[0]
